@@ -34,8 +34,14 @@ type runner struct {
 
 var runners = map[string]runner{
 	"C01": {"model_checking", func(rep *report.Report, tier string) { sesshist.RunC01Server(rep, tier); ribhist.RunC01(rep, tier) }},
-	"C02": {"model_checking", ribhist.RunC02},
-	"C03": {"model_checking", ribhist.RunC03},
+	"C02": {"model_checking", func(rep *report.Report, tier string) {
+		sesshist.RunServerTierLite(rep, tier)
+		ribhist.RunC02(rep, tier)
+	}},
+	"C03": {"model_checking", func(rep *report.Report, tier string) {
+		sesshist.RunServerTierLite(rep, tier)
+		ribhist.RunC03(rep, tier)
+	}},
 	"C16": {"model_checking", ribhist.RunC16},
 	"C07": {"model_checking", func(rep *report.Report, tier string) { getenum.Run(rep, tier); ribhist.RunC07Hist(rep, tier) }},
 	"C12": {"model_checking", malformed.Run},
